@@ -103,6 +103,15 @@ def GFile.findFunc (f : GFile) (n : String) : Option GFunc := f.funcs.find? (·.
 def GFile.interfaces (f : GFile) : List String :=
   f.items.filterMap fun | .interface n _ => some n | _ => none
 
+/-- method-set rule for a type assertion `x.(I)`: does the struct type `s` have every method of the
+    interface `i`? -/
+def GFile.structImplements (f : GFile) (s i : String) : Bool :=
+  match f.items.findSome? (fun | .interface n ms => if n == i then some (ms.map (·.1)) else none | _ => none) with
+  | some wanted =>
+    let have_ := (f.items.findSome? (fun | .structDef m _ ms => if m == s then some (ms.map (·.name)) else none | _ => none)).getD []
+    wanted.all have_.contains
+  | none => false
+
 def GFile.structFields (f : GFile) (n : String) : Option (List (String × GTy)) :=
   f.items.findSome? fun | .structDef m fs _ => if m == n then some fs else none | _ => none
 
